@@ -16,18 +16,19 @@ Definition run_model (c : case) : obs :=
 Definition same_dict (a b : dict) : bool := same (VDict a) (VDict b).
 
 Definition holds (c : case) (o : obs) : list string :=
-  match o, run_spec (cV c) (cC c) (cO c) (cT c) with
+  match o, run_spec (no_marker (cV c)) (cC c) (cO c) (cT c) with
   | Ok d, Ok d' => if same_dict d d' then [] else ["data_equals_spec"%string]
   | Err e, Err e' => if exc_eqb e e' then [] else ["error_class"%string]
   | Ok _, Err _ => ["error_expected"%string]
   | Err e, Ok _ =>
-      if run_empty_case (cV c) (cC c) (cO c) (cT c) && exc_eqb e ValueError
+      if run_empty_case (no_marker (cV c)) (cC c) (cO c) (cT c) && exc_eqb e ValueError
       then ["empty_piece_list_raises"%string] else ["unexpected_error"%string]
   end.
 
 Definition res_wf (r : str * res val) : bool := match snd r with Ok v => wf v | Err _ => true end.
 Definition variants_eqb (a b : variants) : bool :=
-  Bool.eqb (tag_after a) (tag_after b) && Bool.eqb (rerender a) (rerender b) && Bool.eqb (empty_raises a) (empty_raises b).
+  Bool.eqb (tag_after a) (tag_after b) && Bool.eqb (rerender a) (rerender b) && Bool.eqb (empty_raises a) (empty_raises b) &&
+  Bool.eqb (marker_compared a) (marker_compared b).
 
 Definition validb (c : case) : bool :=
   variants_eqb (cV c) current_variants &&
@@ -51,5 +52,5 @@ Definition entry (x : sx) : sx :=
   | Some (c, io) =>
       let m := run_model c in
       L [ sx_of_res sx_of_dict m; L (map sxS (holds c m)); L (map sxS (holds c io));
-          sx_of_res sx_of_dict (run_spec (cV c) (cC c) (cO c) (cT c)); sxBool (validb c) ]
+          sx_of_res sx_of_dict (run_spec (no_marker (cV c)) (cC c) (cO c) (cT c)); sxBool (validb c) ]
   end.
